@@ -164,7 +164,8 @@ class Repo(object):
                 raise Unsupported('stale contract: %s:%s not found in the working tree' % (rel, qualname))
             node = scope = found
             if isinstance(node, ast.ClassDef):
-                cls = self.class_handle(mod, node.name)
+                # (a class defined inside a function has no module-level handle: its methods are treated like plain functions)
+                cls = self.class_handle(mod, node.name) if node.name in mod.classes else None
         if not isinstance(node, ast.FunctionDef):
             raise Unsupported('stale contract: %s:%s is not a function' % (rel, qualname))
         return mod, cls, node
